@@ -93,7 +93,7 @@ class FakeCryptoPair:
 
     aead_tag_size = 16
 
-    def __init__(self, valid=True):
+    def __init__(self, valid=False, **callbacks):
         self.send = FakeContext(valid)
         self.recv = FakeContext(valid)
         self._update_key_requested = False
@@ -132,6 +132,36 @@ class FakeCryptoPair:
         return plain_header, packet[encrypted_offset + 2 : n - 16], pn
 
 
+class TlsModuleProxy:
+    """the aioquic.tls module with Context replaced by the nondeterministic stub"""
+
+    def __getattr__(self, name):
+        from aioquic import tls
+
+        if name == "Context":
+            return FreshFakeTLS
+        return getattr(tls, name)
+
+
+class FreshFakeTLS:
+    """tls.Context stand-in for connections that initialise themselves under the shims"""
+
+    def __init__(self, **kw):
+        from aioquic import tls
+
+        self.is_client = kw.get("is_client")
+        self.state = tls.State.CLIENT_HANDSHAKE_START if self.is_client else tls.State.SERVER_EXPECT_CLIENT_HELLO
+        self.alpn_negotiated = None
+        self.early_data_accepted = False
+        self.session_resumed = False
+        self.key_schedule = None
+        self.received_extensions = []
+        self.calls = 0
+
+    def handle_message(self, data, output):
+        FakeTLS.handle_message(self, data, output)
+
+
 class FakeTLS:
     """stand-in for tls.Context after the handshake: any further handshake bytes are either
     consumed silently or refused with an alert (solver's choice)"""
@@ -149,6 +179,8 @@ class FakeTLS:
     def handle_message(self, data, output):
         from aioquic import tls
 
+        if sx.length_of(data) == 0:
+            return  # client start: producing the ClientHello does not fail
         self.calls += 1
         c = sx.Choice("tls_outcome%d" % self.calls, 3) if sx.E.mode == "sym" else 0
         if c == 1:
